@@ -449,7 +449,7 @@ def gen_location(rng, L, parent=None, allow_empty=True, allow_overlap=True):
     elif r < 0.95 or not allow_empty:
         nb = rng.randint(2, 5)
         starts, ends = gen_blocks(rng, 0, L, nb, zero_gap_p=0.2, max_len=max(2, L // 3))
-        if allow_overlap and rng.random() < 0.15 and len(starts) > 1:
+        if allow_overlap and rng.random() < 0.28 and len(starts) > 1:
             i = rng.randrange(1, len(starts))
             starts[i] = max(starts[i - 1], ends[i - 1] - rng.randint(1, 3))
         if allow_overlap and rng.random() < 0.12:
